@@ -194,3 +194,196 @@ Lemma edge_read_original_defect :
   read_edge (Mvcc.run (ops1 ++ [SetEdge 1 0 5])) 1 1 = read_edge s1 1 1 /\
   read_edge s1 1 1 = Some {| v_ver := 1; v_props := [] |}.
 Proof. vm_compute. repeat split; congruence. Qed.
+
+(* ---------------- read = state as of that version in the monotone history ---------------- *)
+Lemma rfind_app {A} (p : A -> bool) l x : rfind p (l ++ [x]) = if p x then Some x else rfind p l.
+Proof.
+  induction l as [|y l IH]; cbn [app rfind]; [destruct (p x); reflexivity|].
+  rewrite IH. destruct (p x); reflexivity.
+Qed.
+
+Lemma rfind_last_true {A} (p : A -> bool) l y : olast l = Some y -> p y = true -> rfind p l = Some y.
+Proof.
+  induction l as [|x l IH]; [discriminate|]. destruct l as [|z l'].
+  - cbn. intros [= ->] ->. reflexivity.
+  - intros H Hp. change (olast (x :: z :: l')) with (olast (z :: l')) in H.
+    cbn [rfind]. cbn [rfind] in IH. rewrite (IH H Hp). reflexivity.
+Qed.
+
+Lemma olast_upd_last {A} (f : A -> A) l y : olast l = Some y -> olast (upd_last f l) = Some (f y).
+Proof.
+  induction l as [|x l IH]; [discriminate|]. destruct l as [|z l'].
+  - cbn. intros [= ->]. reflexivity.
+  - intros H. change (olast (x :: z :: l')) with (olast (z :: l')) in H.
+    change (upd_last f (x :: z :: l')) with (x :: upd_last f (z :: l')).
+    specialize (IH H). destruct (upd_last f (z :: l')) eqn:E; [discriminate|]. exact IH.
+Qed.
+
+Lemma olast_app {A} (l : list A) x : olast (l ++ [x]) = Some x.
+Proof.
+  induction l as [|y l IH]; [reflexivity|]. cbn [app]. destruct (l ++ [x]) eqn:E; [destruct l; discriminate|].
+  exact IH.
+Qed.
+
+Lemma asof_app evs e id v :
+  asof (evs ++ [e]) id v = if N.eqb (ev_id e) id && N.leb (ev_ver e) v then ev_state e else asof evs id v.
+Proof. unfold asof. rewrite rfind_app. destruct (_ && _); reflexivity. Qed.
+
+Lemma state_of_app evs e id :
+  state_of (evs ++ [e]) id = if N.eqb (ev_id e) id then ev_state e else state_of evs id.
+Proof. unfold state_of. rewrite rfind_app. destruct (N.eqb _ _); reflexivity. Qed.
+
+(* the relation between the chain of [id] and its recorded history *)
+Definition Rel (id : N) (s : nstore) (evs : list event) : Prop :=
+  wf s /\
+  state_of evs id = option_map v_props (olast (chains s id)) /\
+  forall v, option_map v_props (read_at s id v) = asof evs id v.
+
+Lemma rel_init id : Rel id ninit [].
+Proof. split; [apply wf_init|]. split; reflexivity. Qed.
+
+(* appending an entry at the current version to the chain and the matching event *)
+Lemma rel_append id s evs c p chain' :
+  (forall v, option_map v_props (rfind (fun e => N.leb (v_ver e) v) chain') =
+             if N.leb c v then Some p else option_map v_props (read_at s id v)) ->
+  option_map v_props (olast chain') = Some p ->
+  (forall v, option_map v_props (read_at s id v) = asof evs id v) ->
+  (state_of (evs ++ [(id, c, Some p)]) id = option_map v_props (olast chain')) /\
+  (forall v, option_map v_props (rfind (fun e => N.leb (v_ver e) v) chain') = asof (evs ++ [(id, c, Some p)]) id v).
+Proof.
+  intros H1 H2 H3. split.
+  - rewrite state_of_app. unfold ev_id; cbn [fst]. rewrite N.eqb_refl. cbn. symmetry. exact H2.
+  - intros v. rewrite asof_app. unfold ev_id, ev_ver, ev_state; cbn [fst snd]. rewrite N.eqb_refl. cbn [andb].
+    rewrite H1, H3. reflexivity.
+Qed.
+
+Lemma chain_app_reads s id c p v :
+  option_map v_props (rfind (fun e => N.leb (v_ver e) v) (chains s id ++ [{| v_ver := c; v_props := p |}])) =
+  if N.leb c v then Some p else option_map v_props (read_at s id v).
+Proof. rewrite rfind_app. cbn [v_ver]. destruct (N.leb c v); reflexivity. Qed.
+
+Lemma chain_upd_reads s id (f : ver -> ver) latest v :
+  wf s -> olast (chains s id) = Some latest -> N.ltb (v_ver latest) (ncur s) = false ->
+  (forall e, v_ver (f e) = v_ver e) ->
+  option_map v_props (rfind (fun e => N.leb (v_ver e) v) (upd_last f (chains s id))) =
+  if N.leb (ncur s) v then Some (v_props (f latest)) else option_map v_props (read_at s id v).
+Proof.
+  intros W Ho Hlt Hf.
+  assert (v_ver latest = ncur s) as Hv.
+  { pose proof (W id latest (olast_In _ _ Ho)). lia. }
+  destruct (N.leb (ncur s) v) eqn:E.
+  - rewrite (rfind_last_true _ _ (f latest)); [reflexivity|apply olast_upd_last; exact Ho|]. rewrite Hf. lia.
+  - unfold read_at. rewrite rfind_upd_last; [reflexivity|].
+    intros y Hy. rewrite Ho in Hy. injection Hy as <-. rewrite Hf. split; lia.
+Qed.
+
+Lemma rel_other id id' (ch ch' : list ver) (evs evs' : list event) :
+  id' <> id -> ch' = ch ->
+  (evs' = evs \/ exists e, evs' = evs ++ [e] /\ ev_id e = id') ->
+  state_of evs id = option_map v_props (olast ch) ->
+  (forall v, option_map v_props (rfind (fun e => N.leb (v_ver e) v) ch) = asof evs id v) ->
+  state_of evs' id = option_map v_props (olast ch') /\
+  (forall v, option_map v_props (rfind (fun e => N.leb (v_ver e) v) ch') = asof evs' id v).
+Proof.
+  intros Hne -> [->|[e [-> He]]] HS HR; [split; assumption|]. split.
+  - rewrite state_of_app, He. destruct (N.eqb_spec id' id); [congruence|exact HS].
+  - intros v. rewrite asof_app, He. destruct (N.eqb_spec id' id); [congruence|apply HR].
+Qed.
+
+Lemma rel_step id s evs o :
+  is_delete_of id o = false -> Rel id s evs ->
+  Rel id (fst (nstep s o)) (hstep (ncur s) evs o (snd (nstep s o))).
+Proof.
+  intros Hd [W [HS HR]]. split; [apply wf_step; exact W|].
+  destruct o as [hint p|id' k x|id' k|  |id']; cbn [nstep].
+  - (* create *)
+    destruct (nalloc s hint) as [[i fr] nx] eqn:Ea. cbn [fst snd hstep chains]. unfold read_at. cbn [chains].
+    destruct (N.eqb_spec id i) as [->|Hne].
+    + rewrite updc_same. apply (rel_append i s evs (ncur s) p); auto.
+      * intros v. apply chain_app_reads.
+      * rewrite olast_app. reflexivity.
+    + rewrite updc_other by auto. split.
+      * rewrite state_of_app. unfold ev_id; cbn [fst]. destruct (N.eqb_spec i id); [congruence|]. exact HS.
+      * intros v. rewrite asof_app. unfold ev_id; cbn [fst]. destruct (N.eqb_spec i id); [congruence|]. apply HR.
+  - (* set *)
+    destruct (olast (chains s id')) as [latest|] eqn:Eo; cbn [fst snd hstep]; [|split; assumption].
+    destruct (N.eqb_spec id id') as [<-|Hne].
+    + rewrite HS, Eo. cbn [option_map].
+      destruct (N.ltb (v_ver latest) (ncur s)) eqn:E1; cbn [fst snd]; unfold read_at, with_chain; cbn [chains];
+        rewrite updc_same.
+      * apply (rel_append id s evs (ncur s)); auto.
+        -- intros v. apply chain_app_reads.
+        -- rewrite olast_app. reflexivity.
+      * apply (rel_append id s evs (ncur s)); auto.
+        -- intros v. rewrite (chain_upd_reads s id _ latest v W Eo E1); reflexivity.
+        -- rewrite (olast_upd_last _ _ latest Eo). reflexivity.
+    + destruct (N.ltb (v_ver latest) (ncur s)); cbn [fst snd]; unfold read_at, with_chain; cbn [chains];
+        (eapply (rel_other id id' (chains s id) _ evs); [congruence|apply updc_other; auto| |exact HS|exact HR]);
+        (destruct (state_of evs id'); [right; eexists; split; reflexivity|left; reflexivity]).
+  - (* remove *)
+    destruct (olast (chains s id')) as [latest|] eqn:Eo; cbn [fst snd hstep].
+    2:{ destruct (N.eqb_spec id id') as [<-|Hne].
+        - pose proof HS as HS'. rewrite Eo in HS'. cbn in HS'. rewrite HS'. split; [rewrite HS', Eo; reflexivity|exact HR].
+        - destruct (state_of evs id') as [st|]; [|split; assumption]. split.
+          + rewrite state_of_app; unfold ev_id; cbn [fst]; destruct (N.eqb_spec id' id); [congruence|exact HS].
+          + intros v; rewrite asof_app; unfold ev_id; cbn [fst]; destruct (N.eqb_spec id' id); [congruence|apply HR]. }
+    destruct (N.eqb_spec id id') as [<-|Hne].
+    + rewrite HS, Eo. cbn [option_map].
+      destruct (N.ltb (v_ver latest) (ncur s)) eqn:E1; cbn [andb].
+      * destruct (phas k (v_props latest)) eqn:PH; cbn [fst snd]; unfold read_at, with_chain; cbn [chains];
+          rewrite updc_same.
+        -- apply (rel_append id s evs (ncur s)); auto.
+           ++ intros v. apply chain_app_reads.
+           ++ rewrite olast_app. reflexivity.
+        -- (* nothing to remove from an older version: the chain is unchanged, the event repeats the state *)
+           rewrite upd_last_id.
+           2:{ intros y Hy. rewrite Eo in Hy. injection Hy as <-. rewrite prem_absent by auto. destruct latest; reflexivity. }
+           rewrite prem_absent by auto.
+           apply (rel_append id s evs (ncur s)); auto.
+           ++ intros v. destruct (N.leb (ncur s) v) eqn:E; [|reflexivity].
+              rewrite (rfind_last_true _ _ latest Eo); [reflexivity|].
+              pose proof (W id latest (olast_In _ _ Eo)). lia.
+           ++ rewrite Eo. reflexivity.
+      * cbn [fst snd]; unfold read_at, with_chain; cbn [chains]; rewrite updc_same.
+        apply (rel_append id s evs (ncur s)); auto.
+        -- intros v. rewrite (chain_upd_reads s id _ latest v W Eo E1); reflexivity.
+        -- rewrite (olast_upd_last _ _ latest Eo). reflexivity.
+    + destruct (N.ltb (v_ver latest) (ncur s) && phas k (v_props latest)); cbn [fst snd]; unfold read_at, with_chain; cbn [chains];
+        (eapply (rel_other id id' (chains s id) _ evs); [congruence|apply updc_other; auto| |exact HS|exact HR]);
+        (destruct (state_of evs id'); [right; eexists; split; reflexivity|left; reflexivity]).
+  - (* bump *) cbn. split; assumption.
+  - (* delete of another node *)
+    cbn in Hd. destruct (N.eqb_spec id' id) as [E|Hne]; [discriminate|].
+    destruct (read_at s id' (ncur s)) as [r0|]; cbn [fst snd hstep]; [|split; assumption].
+    unfold read_at; cbn [chains]. rewrite updc_other by auto. split.
+    + rewrite state_of_app; unfold ev_id; cbn [fst]; destruct (N.eqb_spec id' id); [congruence|exact HS].
+    + intros w; rewrite asof_app; unfold ev_id; cbn [fst]; destruct (N.eqb_spec id' id); [congruence|apply HR].
+Qed.
+
+Lemma rel_run_from id ops : forall sh,
+  Known_C07 id ops = false -> Rel id (fst sh) (snd sh) ->
+  Rel id (fst (hrun_from sh ops)) (snd (hrun_from sh ops)).
+Proof.
+  induction ops as [|o ops IH]; intros sh K R; [exact R|].
+  cbn in K. apply orb_false_iff in K as [K1 K2].
+  unfold hrun_from in *. cbn [fold_left]. apply IH; auto.
+  unfold hgstep. pose proof (rel_step id (fst sh) (snd sh) o K1 R) as H.
+  destruct (nstep (fst sh) o) as [s' r]. exact H.
+Qed.
+
+Lemma hrun_fst ops : forall sh, fst (hrun_from sh ops) = nrun_from (fst sh) ops.
+Proof.
+  induction ops as [|o ops IH]; intros sh; [reflexivity|].
+  unfold hrun_from, nrun_from in *. cbn [fold_left]. rewrite IH. unfold hgstep.
+  destruct (nstep (fst sh) o); reflexivity.
+Qed.
+
+Theorem read_is_asof : forall ops id v,
+  Known_C07 id ops = false ->
+  fst (hrun ops) = nrun ops /\
+  option_map v_props (read_at (nrun ops) id v) = asof (snd (hrun ops)) id v.
+Proof.
+  intros ops id v K. split; [apply hrun_fst|].
+  pose proof (rel_run_from id ops (ninit, []) K (rel_init id)) as [_ [_ H]].
+  rewrite (hrun_fst ops (ninit, [])) in H. cbn [fst] in H. unfold hrun, nrun. apply H.
+Qed.
